@@ -17,6 +17,7 @@
 EXTENDS Naturals, Sequences, FiniteSets, TLC, Json, IOUtils
 
 CONSTANTS EntryPoints, MinCalls,
+          SplitEntryPoints,  \* entry points that return TWO independent values in one call (main key || context of a key-derivation object): the second must not be found inside the first
           FaultEntryPoints   \* entry points exercised while a fault is injected (locks refused): a call may return no value
 
 Rec == ndJsonDeserialize(IOEnv.TRACE)
@@ -32,8 +33,12 @@ AllZero(v) == \A i \in 1..Len(v) : v[i] = 0
 Init == /\ seen = [e \in EntryPoints |-> {}] /\ first = [e \in EntryPoints |-> <<>>]
         /\ varies = [e \in EntryPoints |-> {}] /\ closed = {} /\ l = 1
 
+\* the last 8 bytes (the context) occur nowhere in what precedes them (the main key): the two outputs of one call are drawn
+\* independently, one is not a copy of part of the other
+Independent(v) == LET n == Len(v) IN n >= 16 => \A i \in 1..(n - 15) : SubSeq(v, i, i + 7) # SubSeq(v, n - 7, n)
 Draw(e, v) ==
   /\ e \in EntryPoints /\ e \notin closed
+  /\ (e \in SplitEntryPoints => Independent(v))
   /\ v \notin seen[e]                   \* no value repeats
   /\ ~AllZero(v)                        \* none is all-zero
   /\ seen' = [seen EXCEPT ![e] = @ \cup {v}]
